@@ -34,6 +34,13 @@ C08_Order(o, t) == Dedup(o.sent, <<>>) = KP(t.sent)
 C08_RepeatSeen(o) == \A i, j \in DOMAIN o.sent :
     (i < j /\ o.sent[i].k = o.sent[j].k /\ o.sent[i].p = o.sent[j].p) => o.sent[j].code = CodeSeen
 
+(* a restarted keyper can load what is stored: every puredkg row decodes *)
+C08_Loadable(o) == o.db.loadable
+
+(* every queued shuttermint message is delivered, in order: what was ever committed to the outbox
+   (o.queued, id order) is what shuttermint received, repeats aside (evaluated at the end) *)
+C08_Delivered(o) == Dedup(o.sent, <<>>) = o.queued
+
 (* it resumes exactly where a keyper that never crashed would be *)
 C08_Twin(o, t) == o.db = t.db
 
@@ -46,13 +53,15 @@ StepFailed(o, t) ==
     (IF C08_Consistent(o) THEN {} ELSE {"C08_Consistent"}) \cup
     (IF C08_Order(o, t) THEN {} ELSE {"C08_Order"}) \cup
     (IF C08_RepeatSeen(o) THEN {} ELSE {"C08_RepeatSeen"}) \cup
-    (IF C08_Twin(o, t) THEN {} ELSE {"C08_Twin"})
+    (IF C08_Twin(o, t) THEN {} ELSE {"C08_Twin"}) \cup
+    (IF C08_Loadable(o) THEN {} ELSE {"C08_Loadable"})
 
 (* after a crash, before the restart: the database alone must already be sound *)
 MidFailed(o) ==
     (IF C08_Once(o) THEN {} ELSE {"C08_Once"}) \cup
     (IF C08_OnePoly(o) THEN {} ELSE {"C08_OnePoly"}) \cup
     (IF C08_Consistent(o) THEN {} ELSE {"C08_Consistent"}) \cup
-    (IF C08_RepeatSeen(o) THEN {} ELSE {"C08_RepeatSeen"})
+    (IF C08_RepeatSeen(o) THEN {} ELSE {"C08_RepeatSeen"}) \cup
+    (IF C08_Loadable(o) THEN {} ELSE {"C08_Loadable"})
 
 =============================================================================
